@@ -18,7 +18,7 @@ from .assemble import ROOT, REPO, template_props, line_tags
 from .rust_text import LostAnchor
 from . import run as vrun
 
-EVID = os.path.join(ROOT, 'evidence')
+EVID = os.environ.get('VERIF_EVIDENCE_DIR') or os.path.join(ROOT, 'evidence')
 REPLAY = os.path.join(ROOT, 'build', 'replay')
 
 
@@ -53,7 +53,7 @@ def unit_fn_names(info, linemap, text_lines):
         if reg.endswith('-sig'):
             base = reg[:-4]
             names.setdefault(mm.group(1), (base, m.get('unit')))
-        elif reg == 'template' and not ln.strip().startswith('//'):
+        elif (reg == 'template' or reg.startswith('spec:')) and not ln.strip().startswith('//'):
             names.setdefault(mm.group(1), ('template', None))
         elif reg == 'guard':
             names.setdefault(mm.group(1), ('guard', None))
